@@ -528,6 +528,28 @@ def _c10_special(seed, n):
                 r = _replay(mod, T, wa, name, (a, bs, c, d), done) if (a.metavars() | d.metavars()) <= mv or ground else None
                 if r: return r
                 done += 1
+    # prove_tautology as a library entry point: whatever it returns advertises the formula (or its negation) and replays to exactly that;
+    # conjunctions of k clauses that are all trivially true exercise the branch that folds per-clause proofs (order matters from k = 3)
+    lem = lambda v: _or(v, neg(v))
+    triv = [lem(MetaVar(0)), lem(MetaVar(1)), lem(MetaVar(2)), _or(neg(MetaVar(0)), MetaVar(0)), _or(MetaVar(3), _or(neg(MetaVar(3)), MetaVar(1))), lem(MetaVar(3))]
+    fams = []
+    for k in range(1, 6):
+        c = triv[k - 1]
+        for x in reversed(triv[:k - 1]): c = _and(x, c)
+        fams += [c, neg(c)] if k <= 2 else [neg(c)]      # (the clauses of ~~c are the k trivial clauses; replaying the proof of c itself for k >= 3 takes minutes)
+    for f in fams + [Implies(MetaVar(0), MetaVar(0)), neg(Implies(MetaVar(0), MetaVar(0))), _and(MetaVar(0), neg(MetaVar(0)))]:
+        mod = Tautology()
+        try:
+            r = mod.prove_tautology(f)
+        except RecursionError:
+            continue
+        except BaseException as e:
+            return ('fail', 'prove_tautology raises %s: %s' % (type(e).__name__, str(e)[:100]), repr(f), done)
+        if r is not None:
+            goal = f if r[0] else neg(f)
+            rr = _replay(mod, r[1], goal, 'prove_tautology', f, done)
+            if rr: return rr
+        done += 1
     return ('ok', done)
 """
 
